@@ -6,6 +6,7 @@ import (
 	"context"
 
 	pb "github.com/libp2p/go-libp2p-pubsub/pb"
+	"github.com/libp2p/go-libp2p/core/network"
 	"github.com/libp2p/go-libp2p/core/peer"
 )
 
@@ -132,4 +133,50 @@ func vpH_C16_in_flight() {
 	vpAssert(nd.tr.count(pb.TraceEvent_DELIVER_MESSAGE) == 0, "a message in flight in the validation pipeline is not delivered after its source or author was blacklisted")
 	vpCover(byAuthor, "by author")
 	nd.shutdown()
+}
+
+// late_stream: the peer is put into the configured blacklist directly (Blacklist.Add on the user-supplied implementation)
+// after the event loop created its outbound queue and before the outbound stream is handed over: the stream is refused,
+// the queue closed, the peer removed; nothing is sent to it.
+type vpCancelRec struct{ n int }
+
+func (c *vpCancelRec) cancel() { c.n++ }
+
+func vpH_C16_late_stream() {
+	vpOpt("unwind", 10)
+	w := vpNewWorld(vpWorldCfg{P: 2, params: vpSmallParams(), scoring: true, tracer: true})
+	gs, ps := w.n.gs, w.n.ps
+	x := w.peers[0]
+	vpAssume(w.up[0])
+	q0 := w.q[0]
+	listed := vpBool("listed_directly")
+	if listed {
+		ps.blacklist.Add(x)
+	}
+	proto := GossipSubID_v11
+	first := make(chan *RPC, 1)
+	rec := &vpCancelRec{}
+	vpOffer(ps.newPeerStream, peerOutgoingStream{
+		Stream:       &vpStream{proto: proto, conn: &vpConn{remote: x, dir: network.DirOutbound, proto: proto}},
+		FirstMessage: first,
+		Cancel:       rec.cancel,
+	})
+	w.n.loop()
+	_, inPeers := ps.peers[x]
+	if listed {
+		vpAssert(!inPeers, "a peer blacklisted before its outbound stream completes is removed from the peer table")
+		vpAssert(q0.closed, "its outbound queue is closed")
+		vpAssert(len(first) == 0 && rec.n == 1, "the stream is cancelled and no hello packet is handed to it")
+		ps.mySubs[vpT0] = map[*Subscription]struct{}{}
+		gs.heartbeat()
+		m := vpMkMsg("self", "9", vpT0)
+		m.ReceivedFrom = "self"
+		ps.publishMessage(m)
+		vpAssert(len(vpDrain(q0)) == 0, "nothing is queued towards the blacklisted peer afterwards")
+	} else {
+		vpAssert(inPeers && len(first) == 1 && rec.n == 0, "a peer that is not blacklisted gets its hello packet")
+	}
+	vpCover(listed, "listed")
+	vpCover(!listed, "not listed")
+	w.n.shutdown()
 }
